@@ -291,10 +291,11 @@ def run(ctx, scratch):
             # explicitly STORED zero weights (what thresholding `adjacency.data[adjacency.data < t] = 0` leaves behind): every edge
             # into one node keeps its place in the matrix with weight 0; for the model these edges do not exist
             v0 = rng.choice(sorted({j for (_, j, _) in triples}))
-            m['coo'] = [[i, j, (0 if j == v0 else w)] for (i, j, w) in triples]
-            m['fmt'] = 'csr'
-            triples = [(i, j, w) for (i, j, w) in triples if j != v0]
-            fam = fam + '_stored_zeros'
+            if any(j != v0 for (_, j, _) in triples):      # (a matrix whose ONLY entries are stored zeros is an "empty" input for the
+                m['coo'] = [[i, j, (0 if j == v0 else w)] for (i, j, w) in triples]      # model and not for the code: not the subject)
+                m['fmt'] = 'csr'
+                triples = [(i, j, w) for (i, j, w) in triples if j != v0]
+                fam = fam + '_stored_zeros'
         args = dict(m=m, n_iter=n_iter, values=values, values_row=values_row, values_col=values_col,
                     init=init, force_bipartite=fb)
         lit = (wmat_lit(nrow, ncol, triples), seeds_lit(values), seeds_lit(values_row), seeds_lit(values_col),
